@@ -63,6 +63,21 @@ func (l *dotLexer) next() (dotTok, error) {
 			}
 			continue
 		}
+		if c == '/' && l.pos+1 < len(s) && s[l.pos+1] == '*' {
+			end := strings.Index(s[l.pos+2:], "*/")
+			if end < 0 {
+				return dotTok{}, fmt.Errorf("offset %d: unterminated comment", l.pos)
+			}
+			l.pos += 2 + end + 2
+			continue
+		}
+		if c == '#' && (l.pos == 0 || s[l.pos-1] == '\n') {
+			// a line beginning with '#' is preprocessor output and ignored
+			for l.pos < len(s) && s[l.pos] != '\n' {
+				l.pos++
+			}
+			continue
+		}
 		break
 	}
 	if l.pos >= len(s) {
